@@ -362,8 +362,24 @@ def random_plan(rng, money=False, max_base=4, max_derived=4, max_units=4,
                 sym = newsym(tname)
                 mine = [u.sym for u in w.units_of(tname)]
                 form = rng.choice(["scaled", "scaled", "term", "term2",
-                                   "derive", "term3"])
+                                   "derive", "term3", "termref"])
                 k = rand_factor()
+                if form == "termref":
+                    # a family of units each given as Term((int, ref unit)):
+                    # already in normal form, so the number reaches the
+                    # unit's scale as written; ratios between two of them
+                    # are not binary fractions
+                    if not int_terms:
+                        form = "term"
+                    else:
+                        ref = t.ref
+                        for j in range(rng.randint(2, 3)):
+                            kj = F(rng.choice([3, 7, 9, 11, 13, 21, 6, 49]))
+                            add(Decl("term", t=tname, sym=sym, kkind="int",
+                                     items=[(("n", kj), 1),
+                                            (("u", ref), 1)]))
+                            sym = newsym(tname)
+                        continue
                 kk = None
                 if k.denominator == 1 and int_terms and rng.random() < 0.5:
                     kk = "int"
